@@ -14,7 +14,7 @@
    actually served. *)
 From Coq Require Import List ZArith Bool.
 From GoHls Require Import Model.Mux Proofs.MuxStream Proofs.MuxLift Proofs.MuxWindow Proofs.MuxHistory
-  Proofs.MuxPlaylist Proofs.MuxMulti Proofs.MuxBandwidth Proofs.MuxLogStep Proofs.MuxSpanHist Proofs.MuxAuditAddsEx.
+  Proofs.MuxPlaylist Proofs.MuxMulti Proofs.MuxBandwidth Proofs.MuxLogStep Proofs.MuxSpanHist Proofs.MuxAuditAddsEx Proofs.MuxOneDefault.
 Import ListNotations.
 Local Open Scope Z_scope.
 
@@ -92,6 +92,23 @@ Theorem c16_bandwidth_is_peak_and_mean : forall segs mx avg,
   /\ (dur <= 0 -> mx = 0 /\ avg = 0).
 Proof. exact bandwidth_is_peak_and_mean. Qed.
 Print Assumptions c16_bandwidth_is_peak_and_mean.
+
+(* "exactly one rendition is DEFAULT" as one statement over every configuration Start accepts, in every
+   variant, at every moment of every write history: the streams that are a DEFAULT rendition number
+   one when the muxer has a rendition and none when it has none, and the EXT-X-MEDIA entries of the
+   multivariant playlist generated in that state likewise *)
+Theorem c16_one_default_always : forall c m ops,
+  start c = Ok m ->
+  let m' := mux_run m ops in
+  count_rd (m_streams m') = if Nat.eqb (n_rend (m_streams m')) 0 then O else 1%nat.
+Proof. exact one_default_always. Qed.
+Print Assumptions c16_one_default_always.
+
+Theorem c16_one_default_in_playlist : forall c m ops mv,
+  start c = Ok m -> gen_multivariant (mux_run m ops) = Ok (Some mv) ->
+  count_default_r (mv_renditions mv) = if Nat.eqb (length (mv_renditions mv)) 0 then O else 1%nat.
+Proof. exact one_default_in_playlist. Qed.
+Print Assumptions c16_one_default_in_playlist.
 
 (* non-vacuity: a reachable state (H264 + AAC, Low-Latency, two complete segments) with one DEFAULT rendition, one
    variant pointing at the leading stream and a non-zero BANDWIDTH *)
